@@ -25,7 +25,7 @@ fn verif_native_macro_witness() {
     std::panic::set_hook(Box::new(|_| {}));
     let mut n = 0;
     let mut bad: Vec<String> = Vec::new();
-    let cases: [(&str, &str, &str); 30] = [
+    let cases: [(&str, &str, &str); 34] = [
         // first matching rule, in textual order
         ("(define-syntax m (syntax-rules () ((m x) 'one) ((m x y) 'two) ((m x ...) 'many)))", "(m 1)", "value one"),
         ("(define-syntax m (syntax-rules () ((m x) 'one) ((m x y) 'two) ((m x ...) 'many)))", "(m 1 2)", "value two"),
@@ -50,6 +50,14 @@ fn verif_native_macro_witness() {
         ("(define-syntax m (syntax-rules (x) ((m a) (quote (got a)))))", "(m x)", "value (got x)"),
         ("(define-syntax m (syntax-rules (x) ((m a) (quote (first a))) ((m _) (quote second))))", "(m x)", "value (first x)"),
         ("(define-syntax m (syntax-rules (x) ((m a ...) (quote (a ...)))))", "(m 1 x 2)", "value (1 x 2)"),
+        // sub-lists are matched element-wise INCLUDING their tail: a proper-list pattern does not match a datum with a dotted tail
+        // (patterns with a dotted tail are outside the class the property names; data with a dotted tail are not)
+        // (the macro is always called m: the macro table is per thread, not per interpreter -- C19 -- and a macro named like a
+        // variable of base.sld breaks the construction of every later interpreter of this test)
+        ("(define-syntax m (syntax-rules () ((m (a b)) '(two a b)) ((m x) '(other x))))", "(m (1 2 . 3))", "value (other (1 2 . 3))"),
+        ("(define-syntax m (syntax-rules () ((m (a b)) '(two a b)) ((m x) '(other x))))", "(m (1 2))", "value (two 1 2)"),
+        ("(define-syntax m (syntax-rules () ((m (a)) 'a)))", "(m (1 . 2))", "SyntaxError"),
+        ("(define-syntax m (syntax-rules () ((m a b) '(a b))))", "(m 1 2 . 3)", "SyntaxError"),
         // _ and pattern variables match any form
         ("(define-syntax m (syntax-rules () ((m _ x) x)))", "(m (1 2 3) 4)", "value 4"),
         ("(define-syntax m (syntax-rules () ((m _ x) x)))", "(m \"s\" 4)", "value 4"),
